@@ -90,6 +90,17 @@ def e9(x):
     return 2000000000 if x != x else int(min(abs(x) * 1e9, 2e9))
 
 
+def np_full(w, U):
+    """dense array of a Kruskal tensor, in plain numpy"""
+    out = np.zeros([u.shape[0] for u in U])
+    for r in range(len(w)):
+        t = np.array(w[r])
+        for u in U:
+            t = np.multiply.outer(t, u[:, r])
+        out = out + t
+    return out
+
+
 def general_event(c: dict, holder: str) -> dict:
     import bind
     ttb = bind.ttb
@@ -109,13 +120,18 @@ def general_event(c: dict, holder: str) -> dict:
             U = [u / np.linalg.norm(u, axis=0) for u in U]
         # the leading vectors do not depend on the overall magnitude of the data
         w = w * float(c.get("scale", 1.0))
-        K = ttb.ktensor(U, w)
-        Xd = K.full().data
+        if holder == "ktensor_shared":
+            # a symmetric Kruskal tensor whose modes all hold ONE array object (no-copy construction / assignment of
+            # the same matrix to several modes): the same tensor as with private copies
+            A = np.asfortranarray(U[0])
+            U = [A for _ in shape]
+        K = ttb.ktensor(U, w, copy=False) if holder == "ktensor_shared" else ttb.ktensor(U, w)
+        Xd = np_full(w, U)
         if holder == "dense":
             T = ttb.tensor(Xd)
         elif holder == "sparse":
             T = ttb.tensor(Xd).to_sptensor()
-        elif holder == "ktensor":
+        elif holder in ("ktensor", "ktensor_shared"):
             T = K
         else:
             G = np.zeros([len(w)] * N)
@@ -205,11 +221,16 @@ def main(tier: str) -> int:
                         cases.append({"cls": "general", "shape": shape, "n": n, "r": r, "flipsign": fs, "holder": h,
                                       "seed": sd + (n + r) % 4, "nonorth": bool(j % 3 == 1 and h in ("dense", "sparse", "ktensor")),
                                       "scale": [1.0, 1e-9, 1.0, 1e7][(j // 2) % 4]})
+    for shape in ([4, 4, 4], [3, 3], [3, 3, 3, 3]):
+        for n in range(len(shape)):
+            for r in (1, 2, 3):
+                cases.append({"cls": "general", "shape": shape, "n": n, "r": r, "flipsign": bool((n + r) % 2), "holder": "ktensor_shared",
+                              "seed": sd + r, "nonorth": bool(r % 2), "scale": 1.0})
     behaviours = [{"cases": cases[j:j + 30]} for j in range(0, len(cases), 30)]
     from collections import Counter
     out.notes["cases_per_class_holder"] = {f"{k[0]}/{k[1]}": v for k, v in Counter((c["cls"], c["holder"]) for c in cases).items()}
     core.pipeline(out, "c14", behaviours, "Nvecs_Trace", lock_mode="superset", chunk=100,
-                  site_of=lambda tr, k: {"dense": "tensor", "dense_int16": "tensor", "sparse": "sptensor", "sparse_int16": "sptensor", "ktensor": "ktensor"}.get(
+                  site_of=lambda tr, k: {"dense": "tensor", "dense_int16": "tensor", "sparse": "sptensor", "sparse_int16": "sptensor", "ktensor": "ktensor", "ktensor_shared": "ktensor"}.get(
                       tr["ev"][k - 1]["args"]["holder"], "ttensor") + ".nvecs", tags_of=tags_of)
     out.rule = ("exact class (diagonal Gram, distinct integer eigenvalues) rotated in mode n by the identity, a signed "
                 "permutation or the 3-4-5 rotation: every mode, r = 1..3 (iterative and dense branch), flipsign on/off, "
